@@ -360,3 +360,48 @@ ASSUMPTIONS = [
     "TaskRegistry.start_task cancels a running instance and starts a new one (C36); a cancelled instance does not continue",
     "the device processes its own outgoing telegram (RemoteValue.last_payload follows the telegram sent) before the cooldown expires; RemoteValue.send_raw queues exactly the payload it is given (C11 / C39)",
 ]
+
+
+# ------------------------------------------------------------------ what the cooldown relies on: last_payload follows every processed telegram
+
+from xknx.dpt import DPTArray as _DPTArray  # noqa: E402
+from xknx.remote_value import RemoteValueSensor as _RVSensor  # noqa: E402
+
+
+class _RecUpdater:
+    def update_received(self, rv):
+        pass
+
+
+from xknx.dpt import DPTScaling as _DPTScaling  # noqa: E402
+from xknx.telegram import IndividualAddress as _IA  # noqa: E402
+
+_PERCENT_RV = Obj(
+    _RVSensor,
+    xknx=Obj(World, state_updater=Const(_RecUpdater()), current_address=Const(_IA(1))),
+    group_address=Obj(GroupAddress, raw=0x0A03),
+    group_address_state=None,
+    passive_group_addresses=Const([]),
+    device_name="d",
+    feature_name="f",
+    _value=None,
+    _payload=None,
+    telegram=None,
+    after_update_cb=None,
+    _sync_state=False,
+    dpt_class=Const(_DPTScaling),
+)
+
+
+@lemma("C41", params=dict(rv=_PERCENT_RV, octet=Int(0, 255), stored_octet=Choice(None, Int(0, 255)), stored_value=Choice(None, Int(0, 100)), outgoing=Bool()), float_mode="real")
+def the_last_payload_is_the_payload_of_the_last_processed_telegram(rv, octet, stored_octet, stored_value, outgoing):
+    """RemoteValue.process (real, percent type - neighbouring payloads decode to the same value): after every
+    accepted telegram last_payload is that telegram's payload, also when the decoded value did not change.
+    The cooldown compares payloads: a stale last_payload would make a pending value count as already sent."""
+    if stored_octet is not None:
+        rv._payload = _DPTArray((stored_octet,))
+    rv._value = stored_value  # whatever value is stored - in particular the one the new payload decodes to
+    payload = _DPTArray((octet,))
+    t = Telegram(destination_address=GroupAddress(0x0A03), direction=TelegramDirection.OUTGOING if outgoing else TelegramDirection.INCOMING, payload=GroupValueWrite(payload))
+    assert rv.process(t)
+    assert rv.last_payload == payload
